@@ -496,7 +496,7 @@ func (g *Gen) Preamble(stripQ bool) string {
 
 const preludeFuns = `
 (declare-fun strlen (Str) Int)
-(assert (forall ((s Str)) (! (>= (strlen s) 0) :pattern ((strlen s)))))
+(assert (forall ((s Str)) (! (and (>= (strlen s) 0) (<= (strlen s) 4611686018427387904)) :pattern ((strlen s)))))
 (declare-fun strcat (Str Str) Str)
 (assert (forall ((a Str) (b Str)) (! (= (strlen (strcat a b)) (+ (strlen a) (strlen b))) :pattern ((strcat a b)))))
 (declare-fun strlt (Str Str) Bool)
